@@ -12,7 +12,7 @@ from rv import oracles as O, gen
 from rv.harness import mod
 
 LEVEL = "exploration"
-RULE = ("(a) lower_bound: bounded-exhaustive over all sorted vectors of 1..4 bins over 0..G and remaining totals 0..8 (G = 5 quick, 6 thorough; sharded), random vectors up to 6 bins / 10^6, "
+RULE = ("(a) lower_bound: bounded-exhaustive over all sorted vectors of 1..4 bins over 0..G and remaining totals 0..8 (G = 5 quick, 6 thorough; sharded), random vectors with up to 16 bins and values up to 2^49, "
         "both values of the sorted flag, list/tuple/ndarray; (b) generate_tree: item lists (n <= 10) with zeros and repeats, integer and fractional windows including empty and inverted ones, "
         "named and unnamed items; (c) all_combinations: pairs of bins-arrays with 1..5 bins, ties and empty bins, both managers; (d) in situ: contracts on the same three extension points while "
         "complete greedy / ckk / snp / rnp solve generated instances. Non-trivial: R > 0 and not all sums equal (a); window excludes >= 1 subset and admits >= 1 (b); >= 2 distinct pairings (c); "
@@ -207,6 +207,9 @@ def insitu(spec, rng, ctx, until):
             if alg == "cg":
                 case["objective"] = [rng.choice(LB_NAMES), None]
                 case["cg_mask"] |= 1          # use_lower_bound on
+                if rng.random() < 0.2:
+                    case["k"] = rng.choice([8, 9, 10, 12])        # many bins: the bounds are evaluated on long sum-vectors
+                    case["values"] = [rng.randint(1, 100) for _ in range(rng.randint(4, 8))]
             if alg == "rnp" and case["k"] >= 6:
                 case["k"] = 5
             if alg in ("ckk", "snp", "rnp") and len(case["values"]) > 8:
@@ -255,8 +258,9 @@ def run_shard(spec, rng, ctx):
     # (a') random, (b), (c)
     phase_end = t0 + span * 0.6
     while C.now() < phase_end:
-        k = rng.randint(1, 6)
-        hi = rng.choice([3, 6, 10, 100, 10 ** 6, 2 ** 40, 2 ** 49])
+        k = rng.choice([1, 2, 3, 4, 5, 6, 6, 8, 9, 10, 12, 16])     # the bounds must hold for any number of bins (rounding in running averages only shows with many bins)
+        hi = rng.choice([3, 6, 10, 30, 100, 100, 10 ** 6, 2 ** 40, 2 ** 49])
+        hi = min(hi, 2 ** 50 // (2 * k))          # keep sums + remaining total below 2^52: everything stays an exact float64 integer (the scope of the partitioners)
         sums = sorted(rng.randint(0, hi) for _ in range(k))
         R = rng.choice([0, rng.randint(0, 20), rng.randint(0, hi * k), sum(sums[-1] - x for x in sums) + rng.choice([-1, 0, 1, k, k + 1]) if True else 0])
         R = max(0, R)
